@@ -50,7 +50,10 @@ def gen(r, algo=None, focus=None, tier="quick", offgrid=False):
     cfg = {"algo": algo, "tps": tps, "duration": duration, "pools": pools, "cpus": cpus,
            "ram": float(ram) if ram.denominator != 1 else int(ram), "multi": multi, "over": over}
     pipes = gen_pipes(r, nticks, tps, ram, focus, offgrid=offgrid)
-    return {"kind": "sys", "cfg": cfg, "pipes": pipes}
+    scn = {"kind": "sys", "cfg": cfg, "pipes": pipes}
+    if r.random() < 0.15 and nticks > 2:
+        scn["decoy_at"] = r.randint(1, max(1, nticks // 2))      # another Executor is constructed while this run is live
+    return scn
 
 
 def gen_pipes(r, nticks, tps, ram, focus=None, max_ops=5, offgrid=False):
@@ -243,7 +246,10 @@ def gen_preempt(r, tier="quick", offgrid=True):
     pipes.sort(key=lambda p: p["at"])
     for k, p in enumerate(pipes):
         p["id"] = "p%d" % (k + 1)
-    return {"kind": "sys", "cfg": cfg, "pipes": pipes}
+    scn = {"kind": "sys", "cfg": cfg, "pipes": pipes}
+    if r.random() < 0.2:
+        scn["decoy_at"] = r.randint(1, max(1, nticks // 2))
+    return scn
 
 
 def gen_chaos(r, tier="quick"):
